@@ -61,6 +61,7 @@ LPRE = [
     ["mutate", [["h", ["mul", src("L", "c"), lit(2)]]]],  # extra column (then names differ)
     ["select", [src("L", "a"), src("L", "b")]],  # c hidden on the left only (names differ)
     ["group_by", [src("L", "b")]],
+    ["slice_head", 2, 0],  # (then alias(): the left operand is a subquery)
 ]
 RHIST = [
     [],
@@ -84,7 +85,15 @@ POST = [
     ["arrange", [["nulls_last", Cn("a")], ["nulls_first", Cn("b")]]],
     ["summarize", [["n", ["count_star"]], ["m", ["max", Cn("a")]]]],
     ["group_by", [Cn("b")]],
+    ["mutate", [["c", lit(7)], ["h", lit(8)]]],  # names that hidden columns of an operand may have had
+    ["summarize", [["n", ["count_star"]]]],
 ]
+SELF = [["union", {"src": "L", "hist": []}, False], ["union", {"src": "L", "hist": []}, True],
+        ["union", {"src": "L", "hist": [["filter", [["is_not_null", src("L", "a")]]]]}, False]]
+# right operands that need a subquery themselves
+RSUB = [[["arrange", [src("R", "a"), src("R", "b")]], ["slice_head", 1, 0]],
+        [["arrange", [src("R", "a"), src("R", "b")]], ["slice_head", 1, 0], ["alias"]],
+        [["mutate", [["c", ["sum", src("R", "c")]]]], ["alias"]]]
 
 
 def union_events(rhists, fn_form=False):
@@ -103,7 +112,11 @@ def alphabet(tier):
         n_union = kinds.count("union")
         if n_union == 0:
             if not kinds:
-                return LPRE + union_events(RHIST, fn_form=True)
+                return LPRE + union_events(RHIST, fn_form=True) + SELF + union_events(RSUB)
+            if kinds == ["slice_head"]:
+                return [["alias"]] + union_events(RHIST[:2])
+            if kinds == ["slice_head", "alias"]:
+                return union_events(RHIST[:2] + RSUB[1:2])
             if len(kinds) == 1:
                 return union_events(RHIST if tier == "thorough" else RHIST[:3] + RHIST[4:6] + RHIST[10:])
             return []
@@ -128,7 +141,7 @@ def probes(ex, hist, mstates):
 
 
 def make_explorer(world, tier="quick"):
-    return X.Explorer(world, alphabet=alphabet(tier), checks=[], depth=4, oracle="model", names="list", probes=probes)
+    return X.Explorer(world, alphabet=alphabet(tier), checks=[], depth=5, oracle="model", names="list", probes=probes)
 
 
 def tasks(tier):
